@@ -417,15 +417,18 @@ class _Sym:
 
 class _Entry:
     """An abstract wrapper_map entry."""
-    def __init__(self, tag, owner_name=None):
+    def __init__(self, tag, owner_name=None, role=None):
         self.tag = tag
         self.owner_name = owner_name or f"owner({tag})"
+        self.role = role          # the literal role tag a class-level routine carries in slot 2 (None: a user's member name)
 
     def get(self, i):
         if i == 1:
             return _Owner(self.tag, self.owner_name)
         if i == 3:
             return _Sym(f"name({self.tag})")
+        if i == 2 and self.role is not None:
+            return self.role
         return _Sym(f"{self.tag}[{i}]")
 
 
@@ -703,12 +706,12 @@ def rule_replay_loops(ctx, rep: Report, rid="I5"):
     ci, prog = mw(ctx)
     shapes = {
         "three ordinary ids": (3, {0: _Entry("E0"), 1: _Entry("E1"), 2: _Entry("E2")}),
-        "virtual pair at 0,1 then an ordinary id": (3, {1: _Entry("V"), 2: _Entry("E2")}),
-        "ordinary id, virtual pair at 1,2": (3, {0: _Entry("E0"), 2: _Entry("V")}),
-        "two virtual pairs back to back": (4, {1: _Entry("V1"), 3: _Entry("V2")}),
-        "virtual pair last": (2, {1: _Entry("V")}),
+        "virtual pair at 0,1 then an ordinary id": (3, {1: _Entry("V", role="collectorInsertAndMakeBase"), 2: _Entry("E2")}),
+        "ordinary id, virtual pair at 1,2": (3, {0: _Entry("E0"), 2: _Entry("V", role="collectorInsertAndMakeBase")}),
+        "two virtual pairs back to back": (4, {1: _Entry("V1", role="collectorInsertAndMakeBase"), 3: _Entry("V2", role="collectorInsertAndMakeBase")}),
+        "virtual pair last": (2, {1: _Entry("V", role="collectorInsertAndMakeBase")}),
         "two virtual classes with the same unqualified name (different namespaces)":
-            (5, {1: _Entry("V1", "Model"), 2: _Entry("E"), 4: _Entry("V2", "Model")}),
+            (5, {1: _Entry("V1", "Model", role="collectorInsertAndMakeBase"), 2: _Entry("E"), 4: _Entry("V2", "Model", role="collectorInsertAndMakeBase")}),
     }
     for label, (n, wmap) in shapes.items():
         holes = [i for i in range(n) if i not in wmap]
@@ -907,6 +910,33 @@ def rule_roles(ctx, rep: Report, rid="I6"):
                     f"property name for others ({sorted({u for _, u in user_named})[:3]}); {how} without first excluding "
                     f"method/property payloads: a C++ method named `{tag}` is generated through the {tag} branch",
                     f"{ci.mod.rel}:{cmp_.lineno}")
+    # the other readers of the map (the two replay loops, anything else that walks it): slot 2 holds the role tag for
+    # class-level routines only; for methods, static methods and properties it is the *user's* member name, so no reader
+    # may compare it with a role tag (a member named `collectorInsertAndMakeBase` would be taken for the class-level routine)
+    if user_named:
+        elsewhere = []
+        scanned = 0
+        for k_ in prog.mro(ci):
+            for mname, mfn in k_.methods.items():
+                if mfn is gc:
+                    continue
+                scanned += 1
+                slot2_locals = {st.targets[0].id for st in walk_no_nested(mfn) if isinstance(st, ast.Assign) and len(st.targets) == 1
+                                and isinstance(st.targets[0], ast.Name) and is_slot2(st.value)}
+                for c in walk_no_nested(mfn):
+                    if not (isinstance(c, ast.Compare) and len(c.ops) == 1 and isinstance(c.ops[0], (ast.Eq, ast.NotEq, ast.In, ast.NotIn))):
+                        continue
+                    sides = [c.left, c.comparators[0]]
+                    lits = {x.value for s_ in sides for x in ast.walk(s_) if isinstance(x, ast.Constant) and isinstance(x.value, str)} & tags
+                    reads = [s_ for s_ in sides if is_slot2(s_) or (isinstance(s_, ast.Name) and s_.id in slot2_locals)]
+                    if lits and reads:
+                        elsewhere.append((mname, c))
+        rep.add(rid, "role-tag:no reader of the map outside generate_collector_function recovers a role from slot 2", not elsewhere,
+                "; ".join(f"{m}: `{unparse(c)[:60]}` (line {c.lineno})" for m, c in elsewhere[:3]) +
+                f": slot 2 is the user's member name for {sorted({u for _, u in user_named})[:3]}; a member called like a role tag is then treated as the "
+                f"class-level routine (e.g. an extra up-cast routine that no case calls)", f"{ci.mod.rel}:{elsewhere[0][1].lineno if elsewhere else gc.lineno}")
+        if scanned < 30:
+            raise AnalysisError(f"{rep.prop}/{rid}: only {scanned} methods of the MATLAB wrapper were scanned")
     # getter / setter recovered by substring of a routine name built from user identifiers
     for c in ast.walk(gc):
         if isinstance(c, ast.Compare) and len(c.ops) == 1 and isinstance(c.ops[0], ast.In) \
@@ -962,3 +992,49 @@ def rule_roles(ctx, rep: Report, rid="I6"):
                 f"`{sorted(want)}...` (S0/S1 = slots 0/1 of the registered tuple): when the two spellings differ for some class "
                 f"(e.g. a typedef instantiated in another namespace than its template) neither / the wrong accessor body is emitted",
                 f"{ci.mod.rel}:{i.lineno}")
+
+
+def rule_one_run_writes_every_file(ctx, rep: Report, rid="I7"):
+    """The ids in the .m files and the `case` labels of <module>_wrapper.cpp belong together only when both come from the
+    *same* run: generate_content writes every entry of the content list, whatever the output folder already holds.  A write
+    that is skipped when a file of the same name (size, date) exists keeps call sites of an earlier numbering next to a
+    freshly numbered dispatch table.  Decided structurally: inside generate_content (and the helper it hands path and text
+    to) the write of an entry's text is on every path through the entry's branch, and no test on that path asks the file
+    system about the output file."""
+    from .rules_cli import _write_sites, exits_before
+    ci, prog = mw(ctx)
+    gc_ = prog.method("MatlabWrapper", "generate_content")
+    loc = f"{ci.mod.rel}:{gc_.lineno}"
+    sites = _write_sites(gc_, prog, ci)
+    rep.add(rid, "generate_content:files are written by this function (directly or through a helper that writes on every path)", len(sites) >= 2,
+            f"{len(sites)} write site(s) found for the two kinds of content entry (class file, namespace scope): a helper that may return "
+            f"without writing is not counted", loc)
+    FS_TESTS = ("isfile", "exists", "getsize", "getmtime", "stat", "samefile", "filecmp", "cmp")
+    bad = []
+    for call, pathx, textx in sites:
+        for t, pol in guards_of(call, gc_, include_exits=True):
+            if any(w in t for w in FS_TESTS) and unparse(pathx) in t:
+                bad.append(f"line {call.lineno}: written only when `{t}` is {pol}")
+    rep.add(rid, "generate_content:no write depends on what the output folder already holds", not bad,
+            f"{bad}: a file left from an earlier run keeps ids of that run's numbering while the gateway source is regenerated", loc)
+    # every kind of entry reaches a write: each branch of the dispatch on the entry's shape writes, or hands its parts to this function again
+    chain = next((i for i in gc_.body if isinstance(i, ast.For)), None)
+    top = next((i for i in (chain.body if chain is not None else []) if isinstance(i, ast.If)), None)
+    k = 0
+    while top is not None:
+        blocks = [(unparse(top.test)[:40], top.body)]
+        nxt = None
+        if len(top.orelse) == 1 and isinstance(top.orelse[0], ast.If):
+            nxt = top.orelse[0]
+        elif top.orelse:
+            blocks.append(("otherwise", top.orelse))
+        for label, blk in blocks:
+            mod_ = ast.Module(body=blk, type_ignores=[])
+            has = any(any(x is s_[0] for x in ast.walk(mod_)) for s_ in sites) or \
+                any(isinstance(x, ast.Call) and unparse(x.func) == f"self.{gc_.name}" for x in ast.walk(mod_))
+            k += 1
+            rep.add(rid, f"generate_content:entry kind #{k} ({label}):written, or taken apart and handed to generate_content again", has,
+                    "neither a write nor a recursive call on this branch: the files of this kind are not produced", f"{ci.mod.rel}:{top.lineno}")
+        top = nxt
+    if k < 2:
+        raise AnalysisError("generate_content: dispatch on the shape of a content entry not found")
